@@ -604,6 +604,49 @@ func genShutdown() (string, error) {
 	s += "/-- HTTP/1: `GoAway()` does nothing (no notification exists in the protocol) -/\n"
 	s += fmt.Sprintf("def http1GoAwayIsNoop : Bool := %v\n", len(h1g.Body.List) == 0)
 
+	// which stream layers allow their server connections to be transferred to the new process
+	transferable := func(rel, recv, fn string) (string, error) {
+		f, err := parse(rel)
+		if err != nil {
+			return "", err
+		}
+		var lit *ast.FuncLit
+		for _, d := range f.Decls {
+			fd, ok := d.(*ast.FuncDecl)
+			if !ok || fd.Body == nil {
+				continue
+			}
+			ast.Inspect(fd.Body, func(n ast.Node) bool {
+				if c, ok := n.(*ast.CallExpr); ok && strings.HasSuffix(exprKey(c.Fun), ".SetTransferEventListener") && len(c.Args) == 1 {
+					if l, ok := c.Args[0].(*ast.FuncLit); ok {
+						lit = l
+					}
+				}
+				return true
+			})
+		}
+		if lit == nil || len(lit.Body.List) == 0 {
+			return "", fmt.Errorf("%s: SetTransferEventListener(func) not found", rel)
+		}
+		r, ok := lit.Body.List[len(lit.Body.List)-1].(*ast.ReturnStmt)
+		if !ok || len(r.Results) != 1 {
+			return "", fmt.Errorf("%s: transfer listener does not end in a return", rel)
+		}
+		switch exprKey(r.Results[0]) {
+		case "true", "false":
+			return exprKey(r.Results[0]), nil
+		}
+		return "", fmt.Errorf("%s: transfer listener returns a non-constant", rel)
+	}
+	s += "/-- server connections that may be handed over to the new process (`SetTransferEventListener`) -/\n"
+	for _, p := range [][2]string{{"pkg/stream/xprotocol/conn.go", "transferableXprotocol"}, {"pkg/stream/http/stream.go", "transferableHttp1"}, {"pkg/stream/http2/stream.go", "transferableHttp2"}} {
+		v, err := transferable(p[0], "", "")
+		if err != nil {
+			return "", err
+		}
+		s += fmt.Sprintf("def %s : Bool := %s\n", p[1], v)
+	}
+
 	// ---- keeper: signal table
 	kf, err := parse(ksrc)
 	if err != nil {
